@@ -12,7 +12,7 @@ def opFrag : Expr → Bool
   | _ => false
 
 theorem Good.render_of_body {c e ne} (h : Good (body c e) (natLevel e) ne) :
-    Good (render true c e) (lvl c e) ne := by
+    Good (render .wide c e) (lvl c e) ne := by
   rw [render_eq]
   unfold lvl
   cases wrapped c e with
@@ -32,7 +32,7 @@ theorem wf_not_rem {e : Expr} (h : wf .expr e = true) : ∀ b l r, e = .bin b l 
   exact h.1.1
 
 theorem good_render : ∀ (e : Expr), opFrag e = true → wf .expr e = true → ∀ ne, norm e = some ne →
-    ∀ c : Ctx, c.ok → Good (render true c e) (lvl c e) ne := by
+    ∀ c : Ctx, c.ok → Good (render .wide c e) (lvl c e) ne := by
   intro e
   induction e with
   | lit l =>
@@ -117,5 +117,61 @@ theorem good_render : ∀ (e : Expr), opFrag e = true → wf .expr e = true → 
   | call f a _ => intro hf; simp [opFrag] at hf
   | nil => intro hf; simp [opFrag] at hf
   | cons k x r _ _ => intro hf; simp [opFrag] at hf
+
+/-! ### the narrow writer agrees with the wide rule outside the class `exposed` -/
+
+theorem render_narrow_eq_wide : ∀ (e : Expr) (c : Ctx), exposed c e = false →
+    render .narrow c e = render .wide c e := by
+  intro e
+  induction e with
+  | lit l =>
+    intro c h
+    simp only [render]
+    simp only [exposed] at h
+    rcases Option.eq_none_or_eq_some l.sign.unop with hu | ⟨u, hu⟩
+    · simp [hu]
+    · simp only [hu] at h ⊢
+      simp only [bne_eq_false_iff_eq] at h
+      rw [h]
+  | un u x ih =>
+    intro c h
+    simp only [exposed, Bool.or_eq_false_iff, bne_eq_false_iff_eq] at h
+    simp only [render, h.1, ih _ h.2]
+  | bin b l r ihl ihr =>
+    intro c h
+    simp only [exposed, Bool.or_eq_false_iff] at h
+    simp only [render, ihl _ h.1, ihr _ h.2, WMode.fixedBin]
+  | part n a nx iha ihn =>
+    intro c h
+    simp only [exposed, Bool.or_eq_false_iff] at h
+    simp only [render, iha _ h.1, ihn _ h.2]
+  | call f a ih =>
+    intro c h
+    simp only [exposed] at h
+    simp only [render, ih _ h]
+  | nil => intro c _; rfl
+  | cons k x r ihx ihr =>
+    intro c h
+    simp only [exposed, Bool.or_eq_false_iff] at h
+    simp only [render, ihx _ h.1, ihr _ h.2]
+
+/-- Where the two tests can differ at all: a `+`/`-` sign whose parent is `*` or `/`. -/
+theorem exposed_only_under_mul (lit : Bool) (u : UnOp) (c : Ctx)
+    (h : parenSignM .narrow lit u c ≠ parenSignM .wide lit u c) :
+    u ≠ .not ∧ ∃ b right eqR, c.par = .bin b right eqR ∧ (b = .mul ∨ b = .div) := by
+  obtain ⟨par, gp⟩ := c
+  cases par with
+  | none => simp [parenSignM, parenSign] at h
+  | un v => simp [parenSignM, parenSign] at h
+  | bin b right eqR =>
+    have key : ¬ (u ≠ .not ∧ (b = .mul ∨ b = .div)) →
+        parenSignM .narrow lit u ⟨.bin b right eqR, gp⟩ = parenSignM .wide lit u ⟨.bin b right eqR, gp⟩ := by
+      intro hk
+      clear h
+      cases u <;> cases b <;> cases lit <;> cases right <;>
+        simp_all [parenSignM, parenSign, BinOp.prec, UnOp.prec, BinOp.tok, UnOp.tok, OpTok.prec]
+    by_cases hk : u ≠ .not ∧ (b = .mul ∨ b = .div)
+    · exact ⟨hk.1, b, right, eqR, rfl, hk.2⟩
+    · exact absurd (key hk) h
 
 end C02
